@@ -13,13 +13,16 @@ BOUNDS = {
     "quick": dict(
         full=[dict(N=4, K=2, depths=(1, 2, 3), modes=("r0", "rp"), grouped=(False,), hi=True, kinds=hitx.KINDS_HI),
               dict(N=4, K=2, depths=(1, 2, 3), modes=hitx.MODES, grouped=(False, True)),
-              dict(N=4, K=3, depths=(1, 2), modes=("r0",), grouped=(False,))],
+              dict(N=4, K=3, depths=(1, 2), modes=("r0",), grouped=(False,)),
+              dict(N=4, K=3, depths=(1, 2), modes=("r0", "rp"), grouped=(False,), kinds=hitx.KINDS_E)],
         streams="quick"),
     "thorough": dict(
         full=[dict(N=4, K=3, depths=(1, 2, 3), modes=("r0", "rp"), grouped=(False,), hi=True, kinds=hitx.KINDS_HI),
               dict(N=5, K=2, depths=(1, 2, 3, 4), modes=hitx.MODES, grouped=(False, True)),
               dict(N=4, K=3, depths=(1, 2, 3), modes=hitx.MODES, grouped=(False,)),
-              dict(N=5, K=3, depths=(2,), modes=("r0", "rd"), grouped=(False,))],
+              dict(N=5, K=3, depths=(2,), modes=("r0", "rd"), grouped=(False,)),
+              dict(N=5, K=3, depths=(1, 2), modes=("r0", "rp"), grouped=(False,), kinds=hitx.KINDS_E),
+              dict(N=4, K=4, depths=(2,), modes=("r0",), grouped=(False,), kinds=("p", "d1", "e"))],
         ties=[dict(N=4, K=4, depths=(2,), modes=("r0",), grouped=(False,))],
         streams="thorough"),
 }
@@ -31,7 +34,8 @@ def describe(tier):
         "ends strictly increasing; for every pair of KEPT hits of one search where the later (in start asc / end desc / registry order) lies inside "
         "the earlier: the earlier is an undecoded context and the later is in its sub-tree -- a hit kept inside a decoded hit is a violation. "
         "Non-trivial = configuration/input where a decoded hit lies under a context at accumulated offset > 0 and a later hit ends inside it "
-        "(the shape no unit test builds), counted from the reference machine's drop log.",
+        "(the shape no unit test builds), counted from the reference machine's drop log. One block adds the kind `e` (a result with an EMPTY value, which the engine "
+        "must discard before it can open, close or shadow anything) to every position of every <=3-hit configuration.",
         "bounds": BOUNDS[tier],
         "assumptions": ["scans that raise or hang are counted and left to C01"],
         "exhaustive": True,
@@ -39,7 +43,7 @@ def describe(tier):
 
 
 def plan(tier, seed):
-    return [(tier,) + u for u in ep.plan(BOUNDS[tier])]
+    return [(tier,) + u for u in ep.plan(BOUNDS[tier])] + ep.interp_units(tier)
 
 
 def on_run(rec, run, w, size):
